@@ -210,6 +210,8 @@ class Engine(ExprMixin, CallMixin):
             if k.arg == "pats":
                 for ptxt in ast.literal_eval(k.value):
                     terms = [to_z3(self.ev(ast.parse(t, mode="eval").body, st2)) for t in (ptxt if isinstance(ptxt, (list, tuple)) else [ptxt])]
+                    if any(_has_ite(t_) for t_ in terms):
+                        continue  # z3 refuses `if` inside patterns (with a warning on stderr): this hint does not apply to this instance
                     pats.append(z3.MultiPattern(*terms) if len(terms) > 1 else terms[0])
         if pats:
             try:
@@ -337,7 +339,10 @@ class Engine(ExprMixin, CallMixin):
     def spec_setof(self, node, st):
         """setof(lambda x: P(x)): the set of integers {x | P(x)} (set comprehension at spec level)"""
         lam = node.args[0]
-        x = z3.Int(uid(lam.args.args[0].arg))
+        # the bound variable's name depends only on the parameter name: the same clause text over the same values is then the
+        # identical lambda term wherever it is evaluated (no extensionality reasoning needed).  A nested setof over the same
+        # parameter name binds its own occurrences first (innermost lambda is built first), as Python's shadowing does.
+        x = z3.Int(f"{lam.args.args[0].arg}!set")
         st2 = st.copy()
         st2.env[lam.args.args[0].arg] = x
         return VSet(("int",), z3.Lambda([x], to_z3(self.truth(self.ev(lam.body, st2)))))
@@ -618,6 +623,12 @@ class Engine(ExprMixin, CallMixin):
                         self.assume_wf(val.val if isinstance(val, VOpt) else val, st)
                         self.used_externals.add("attr:" + key)
                         return val
+                    if key in getattr(self.sidecar, "MODULE_VALUES", {}):
+                        # a module constant that has no value in the engine's domains (math.nan: floats are reals) and whose
+                        # engine value the sidecar supplies - a modelling decision of the sidecar, listed there and recorded
+                        # like an external (e.g. NaN used purely as a sentinel, as the None of an Optional real)
+                        self.used_externals.add("attr:" + key)
+                        return self.sidecar.MODULE_VALUES[key]
                     obj = root
                     for p_ in parts:
                         obj = getattr(obj, p_)
@@ -796,8 +807,13 @@ class Engine(ExprMixin, CallMixin):
         """turn recorded may-raise conditions into raise outcomes; restrict the normal state"""
         outs = []
         conds = []
+        ordered = bool(getattr(self.sidecar, "ORDERED_RAISES", False))
         for c, exc, nd in self.mayraise:
             sr = st.copy()
+            if ordered and conds:
+                # opt-in of the sidecar: the conditions are recorded in evaluation order and the first subexpression that
+                # raises ends the statement, so this exception is raised only if none of the earlier conditions held
+                sr.pc.append(NOT(OR(*conds)))
             sr.pc.append(c)
             outs.append(Outcome("raise", sr, exc=exc, line=getattr(nd or node, "lineno", None)))
             outs[-1].node = nd or node
@@ -957,7 +973,15 @@ class Engine(ExprMixin, CallMixin):
         return self.with_raises(st, [Outcome("fall", st)], s)
 
     def st_If(self, s, st):
-        c = self.truth(self.ev(s.test, st))
+        try:
+            c = self.truth(self.ev(s.test, st))
+        except Unsupported:
+            if not isinstance(s.test, ast.BoolOp):
+                raise
+            # `if a and b:` whose operands have no common value tree (e.g. `x is None and some_list`): only the truth of the
+            # test matters here - evaluated again from scratch, combining the operands' truth values (ev_cond)
+            self.guard, self.mayraise = [], []
+            c = self.ev_cond(s.test, st)
         pre = self.with_raises(st, [], s)
         cb = conc_bool(c)
         if cb is None:
@@ -1053,6 +1077,17 @@ class Engine(ExprMixin, CallMixin):
                 if len(set(names)) == len(names) and set(names) == set(fields):
                     vals = [self.ev(v_, st) for v_ in node.values]
                     return VRec(hint[1], {n_: self.coerce(v_, self.shape(fields[n_])) for n_, v_ in zip(names, vals)})
+            if hint is not None and hint[0] == "ref" and self.classes.get(hint[1], {}).get("dict_keys") \
+                    and self.classes[hint[1]].get("kind") == "object" and not self.spec \
+                    and all(isinstance(k_, ast.Constant) and isinstance(k_.value, str) for k_ in node.keys):
+                # the same literal assigned to a local declared `Cls` (a reference) where Cls models a dict OBJECT with a fixed
+                # key set whose values live in heap fields (the dict is shared with callees that mutate what it holds): a
+                # new object, one field per key, values evaluated in source order
+                names = [k_.value for k_ in node.keys]
+                fields = self.classes[hint[1]]["fields"]
+                if len(set(names)) == len(names) and set(names) == set(fields):
+                    vals = [self.ev(v_, st) for v_ in node.values]
+                    return self.construct(hint[1], [], dict(zip(names, vals)), node, st)
             raise Unsupported("non-empty dict literal")
         return VEmptyDict()
 
@@ -1564,6 +1599,12 @@ class Engine(ExprMixin, CallMixin):
             # and a following `keep` may drop the defining equation (dropping hypotheses is always sound).
             for v_ in [x_.strip() for x_ in cmd[5:].split(",") if x_.strip()]:
                 cur = st.env.get(v_)
+                if isinstance(cur, VRef) and is_leaf(to_z3(cur.ident)):
+                    # a reference: its identity gets the name (same conservative extension as for a scalar)
+                    c0 = z3.Const(uid(v_ + ".named"), z3.IntSort())
+                    st.assume(c0 == to_z3(cur.ident))
+                    st.env[v_] = VRef(cur.cls, c0)
+                    continue
                 if cur is None or not (is_leaf(cur) or isinstance(cur, (str, int, bool))):
                     raise ContractError(f"name: {v_!r} is not a program variable holding a scalar value")
                 cur = to_z3(cur)
@@ -1622,7 +1663,8 @@ class Engine(ExprMixin, CallMixin):
             # "mark M" / "summarize M as P": P is proved here, then every hypothesis added to this path since the mark is
             # dropped and P is kept instead (dropping hypotheses is always sound).  Keeps the by-products of one statement
             # (lambda terms, string facts, lemma instances) out of every later obligation once their consequence is recorded.
-            st.ghost["__mark_" + cmd[5:].strip()] = len(st.pc)
+            mname_, _, pos_ = cmd[5:].strip().partition(" ")
+            st.ghost["__mark_" + mname_] = 0 if pos_.strip() == "0" else len(st.pc)  # "mark M 0": the start of the path
         elif cmd.startswith("stash "):
             # "stash M": the quantified hypotheses added to this path since "mark M" are set aside (not visible to the obligations that
             # follow) until "unstash M" puts them back.  Hypotheses are facts about immutable values established earlier on
@@ -1638,9 +1680,9 @@ class Engine(ExprMixin, CallMixin):
             st.pc[at_:] = [f_ for f_ in st.pc[at_:] if not _has_quant(f_)]
         elif cmd.startswith("unstash "):
             saved = st.ghost.get("__stash_" + cmd[8:].strip())
-            if not isinstance(saved, tuple):
-                raise ContractError(f"unstash: nothing stashed under {cmd[8:].strip()!r} on this path")
-            st.pc.extend(saved)
+            if isinstance(saved, tuple):  # (nothing stashed under this name on this path: nothing to restore)
+                st.pc.extend(saved)
+                st.ghost["__stash_" + cmd[8:].strip()] = ()
         elif cmd.startswith("summarize "):
             mname, rest = cmd[10:].split(" as ", 1)
             at_ = st.ghost.get("__mark_" + mname.strip())
@@ -1840,6 +1882,10 @@ class Engine(ExprMixin, CallMixin):
             # call has been written so far.  Nothing is claimed about the statements behind it or about the returned value:
             # such a contract states no ensures and is refused at call sites (calls.call_contract).
             is_stop = o.kind == "stop"
+            if any(z3.is_false(f_) for f_ in o.st.pc):
+                # the statement that ends here always raises (its normal continuation carries the path condition False, e.g. a
+                # call of a non-callable value): there is no such exit; the raise itself is accounted for above
+                continue
             nexits += 1
             self.reach.append((f"exit{nexits}", list(self.global_facts) + list(o.st.pc)))
             res = o.value if o.kind == "return" else None
@@ -1996,6 +2042,16 @@ def _same_list(a, b):
     ea, eb = leaves(sel(a.elems, q)), leaves(sel(b.elems, q))
     n = to_z3(a.length)
     return z3.And(n == to_z3(b.length), z3.ForAll([q], z3.Implies(z3.And(q >= 0, q < n), AND(*[x == y for x, y in zip(ea, eb)]))))
+
+
+def _has_ite(e, seen=None):
+    seen = set() if seen is None else seen
+    if e.get_id() in seen:
+        return False
+    seen.add(e.get_id())
+    if z3.is_app(e) and e.decl().kind() == z3.Z3_OP_ITE:
+        return True
+    return any(_has_ite(c, seen) for c in e.children())
 
 
 def _as_load(t):
